@@ -2,6 +2,7 @@ import PysamlModel.Model.MiniPy
 import PysamlModel.Model.Sp
 import PysamlModel.Gen.PyFuns
 import PysamlModel.Proofs.PyTie
+import PysamlModel.Proofs.MiniPy
 
 /-!
 # C04: the hand-written `Sp.forMe` IS `saml2.response.for_me` (refinement over the regenerated MiniPy term)
@@ -80,6 +81,119 @@ theorem for_me_refines (me : String) (rs : List (List (Option String))) :
       rw [evalBlock_cons, h4 env' _ hma']; simp only []
       rw [evalBlock_cons, h5 env' _ hma']
       simp [hne]
+
+
+/-! ## `StatusResponse._verify` (Destination against the own return addresses, IssueInstant, status) -/
+
+theorem any_str_eq (addrs : List String) (d : String) :
+    (addrs.map Val.str).any (fun y => match y with | .str t => t == d | _ => false) = addrs.contains d := by
+  induction addrs with
+  | nil => rfl
+  | cons a as ih =>
+    simp only [List.map_cons, List.any_cons, List.contains_cons, ih]
+    congr 1
+    exact Bool.beq_comm
+
+
+def vS1 : Stmt := (.ifs (.and (.attr (.name "self") "request_id") (.and (.attr (.name "self") "in_response_to") (.cmp .ne (.attr (.name "self") "in_response_to") (.attr (.name "self") "request_id")))) [
+      (.ret (some .none))] [])
+def vS2 : Stmt := (.ifs (.cmp .ne (.attr (.attr (.name "self") "response") "version") (.str "2.0")) [
+      (.assign "_ver" (.call "float" [(.attr (.attr (.name "self") "response") "version")])),
+      (.ifs (.cmp .lt (.name "_ver") (.unsupported "Constant:float")) [
+        (.raise "RequestVersionTooLow")] [
+        (.raise "RequestVersionTooHigh")])] [])
+def vS3 : Stmt := (.ifs (.attr (.name "self") "asynchop") [
+      (.ifs (.and (.attr (.attr (.name "self") "response") "destination") (.cmp .notIn (.attr (.attr (.name "self") "response") "destination") (.attr (.name "self") "return_addrs"))) [
+        (.ret (some .none))] [])] [])
+def vS4 : Stmt := (.assign "valid" (.and (.callm (.name "self") "issue_instant_ok" []) (.callm (.name "self") "status_ok" [])))
+def vS5 : Stmt := (.ret (some (.name "valid")))
+
+/-- The shape of the regenerated term. -/
+theorem verify_shape : StatusResponse__verify.body = [vS1, vS2, vS3, vS4, vS5] := rfl
+
+/-- **`StatusResponse._verify` refines `Sp.verifyEnvelope`** (for SAML version 2.0, no `request_id` handed in): for
+    every Destination (absent, empty, any value), every list of own return addresses, both kinds of binding, any
+    outcome of the IssueInstant check and any status, the CURRENT text of the method returns a truthy value exactly when
+    the model function answers `ok true`, a falsy one (`None` for a foreign Destination, `False` for a stale
+    IssueInstant) when it answers `ok false`, and lets the status error through when it errs. -/
+theorem verify_refines (cfg : Sp.Cfg) (env : Sp.Env) (r : Sp.Response) (tm : String → Int) (cls : String)
+    (hv : r.version = "2.0") :
+    run Sp.pyStrip (pyExt env.now tm (Sp.issueInstantOk env.now cfg.skew r.issueInstant) (statusExt r.statusTop cls))
+        StatusResponse__verify [selfVerify env.asynchop r.destination cfg.returnAddrs] =
+      (match Sp.verifyEnvelope cfg env r with
+       | .ok true => .value (.bool true)
+       | .ok false =>
+         if env.asynchop && Sp.truthy r.destination && !(cfg.returnAddrs.contains (r.destination.getD "")) then .value .none
+         else .value (.bool false)
+       | .error _ => .raised cls) := by
+  unfold Sp.verifyEnvelope statusExt
+  have hv' : (r.version != "2.0") = false := by simp [hv]
+  simp only [hv', Bool.false_eq_true, if_false]
+  generalize Sp.issueInstantOk env.now cfg.skew r.issueInstant = ii
+  have hsu : successUri = "urn:oasis:names:tc:SAML:2.0:status:Success" := rfl
+  rw [← hsu]
+  generalize (r.statusTop != successUri) = ns
+  generalize cfg.returnAddrs = addrs
+  generalize env.asynchop = asy
+  generalize r.destination = dest
+  cases asy with
+  | false => cases ii <;> cases ns <;> rfl
+  | true =>
+    cases dest with
+    | none => cases ii <;> cases ns <;> rfl
+    | some d =>
+      by_cases hd : d = ""
+      · subst hd
+        cases ii <;> cases ns <;> rfl
+      · have hd' : (d != "") = true := by simpa using hd
+        let selfV := selfVerify true (some d) addrs
+        let env0 : Env := [("self", selfV)]
+        let ext := pyExt env.now tm ii (if ns = true then R.raise cls else R.ok (Val.bool true))
+        let A : Expr := .attr (.attr (.name "self") "response") "destination"
+        let B : Expr := .cmp .notIn (.attr (.attr (.name "self") "response") "destination") (.attr (.name "self") "return_addrs")
+        have hrun : run Sp.pyStrip ext StatusResponse__verify [selfV] =
+            (match evalBlock Sp.pyStrip ext 64 env0 StatusResponse__verify.body with
+             | .normal _ => .value .none
+             | .ret v _ => .value v
+             | .raise c _ => .raised c
+             | .brk _ => .stuck "break outside a loop"
+             | .cont _ => .stuck "continue outside a loop"
+             | .stuck w => .stuck w) := rfl
+        show run Sp.pyStrip ext StatusResponse__verify [selfV] = _
+        rw [hrun, verify_shape]
+        have h1 : evalStmt Sp.pyStrip ext 63 env0 vS1 = .normal env0 := rfl
+        have h2 : evalStmt Sp.pyStrip ext 62 env0 vS2 = .normal env0 := rfl
+        rw [evalBlock_cons, h1]; simp only []
+        rw [evalBlock_cons, h2]; simp only []
+        rw [evalBlock_cons]
+        show (match (match evalStmt Sp.pyStrip ext 61 env0 (.ifs (.attr (.name "self") "asynchop") [(.ifs (.and A B) [(.ret (some .none))] [])] []) with
+                | .normal env' => evalBlock Sp.pyStrip ext 61 env' [vS4, vS5]
+                | other => other) with
+          | .normal _ => Result.value .none
+          | .ret v _ => .value v
+          | .raise c _ => .raised c
+          | .brk _ => .stuck "break outside a loop"
+          | .cont _ => .stuck "continue outside a loop"
+          | .stuck w => .stuck w) = _
+        rw [evalStmt_ifs]
+        have hasy : evalExpr Sp.pyStrip ext 60 env0 (.attr (.name "self") "asynchop") = .ok (.bool true) := rfl
+        rw [hasy]
+        simp only [truthy, if_true]
+        rw [evalBlock_cons, evalStmt_ifs, evalExpr_and]
+        have hA : evalExpr Sp.pyStrip ext 57 env0 A = .ok (.str d) := rfl
+        have hB : evalExpr Sp.pyStrip ext 57 env0 B =
+            .ok (.bool (!((addrs.map Val.str).any (fun y => match y with | .str t => t == d | _ => false)))) := rfl
+        rw [hA]
+        simp only [truthy, hd', if_true]
+        rw [hB, any_str_eq]
+        simp only [Sp.truthy, hd', Option.getD_some, Bool.true_and]
+        cases hc : addrs.contains d with
+        | false =>
+          simp only [Bool.not_false, truthy, if_true]
+          rfl
+        | true =>
+          simp only [Bool.not_true, truthy, Bool.false_eq_true, if_false]
+          cases ii <;> cases ns <;> rfl
 
 
 /-! Non-vacuity: the theorems are about terms that really compute (evaluated by the kernel). -/
